@@ -381,6 +381,8 @@ func (x *ctx) runCase(c Case, o *vlib.Oracle) {
 		x.runEcmNeg(c, a, o, useOracle, key)
 	case "tweakadd": // A t   (XY.ECPublicTweakAdd against A + t·G, incl. sums at infinity)
 		x.runTweakAdd(c, a, o, useOracle, key)
+	case "hist": // flag key hash step...   (a history of library calls; hist.go)
+		x.runHist(c, a, o, useOracle, key)
 	case "legacy": // op-name + args: a witness of a repaired defect; the current code must refuse it
 		x.runLegacy(c, o, key)
 	default:
@@ -796,6 +798,7 @@ func main() {
 	add("schnorre", false, r.N(600, 20000), 100)
 	add("ecmneg", false, r.N(600, 20000), 100)
 	add("tweakadd", false, r.N(600, 10000), 100)
+	add("hist", false, r.N(400, 6000), 20)
 	// sweeps (sweep.go): long incremental runs of valid inputs + their minimal invalid sibling, for defects
 	// that need 10^4..10^5 inputs to show (un-normalised field elements read by IsOdd/Equals)
 	add("sweep-tweak", false, r.N(120000, 1500000), 4000)
@@ -856,8 +859,9 @@ func main() {
 	r.Extra["corpus_cases"] = ncorpus
 	r.Extra["oracle_workers"] = workers
 	r.Extra["model_tie_share"] = shareReport()
+	r.Extra["hist_steps"] = histClasses
 	r.Finish(
-		"corpus (defect witnesses, boundary scalars, BIP340 CSV rows, RFC6979/HMAC and signature vectors from the repo's tests) then a structured generator: valid triples from random keys in all key formats, then one mutation per case (bit flips, r/s in {0,n,n+k,p,2^256-1,s+n,n-s}, 33-byte and padded integers, DER container damage, x>=p, y>=p, non-residue x, off-curve, hybrid parity, wrong lengths, infinity results, own-arithmetic forgeries, algebraic triples with small s offered as s+n < 2^256, triples solved for a chosen nonce point with n <= x(R) < p (r = x-n) and their unreduced / negated-key / high-S / bit-flipped siblings, twin nonce points x and x+n sharing one r, public-key recovery on arbitrary (r, s, hash, recid) with the recovered triple offered back to the verifier, signing inputs solved for short R / short S with the top bit set, signing inputs solved for S = 0 (message value -r*d: Signature.Sign must return 0) with the neighbour m+1, recovery inputs solved for a result at infinity (R = k*G, m = s*k: nil expected) with the other parity and the neighbouring message, BIP340 signing with secret keys of 0 / 1 / 4 / 31 / 33+ bytes (nil expected), SchnorrVerify's steps on r = x(R)+p for a tiny-x nonce point with the key solved for the injected challenge, RFC6979 nonces for message hashes 0 / n+k / ff..ff, the repository's RFC6979 vectors with their expected outputs (noncevec), SchnorrVerify's steps with an injected challenge e >= n on valid / shifted-by-n / odd-R / bit-flipped signatures (schnorre) and XYZ.ECmult with negative scalars (ecmneg), results at infinity for all three verifiers with the claim ranging over every coordinate an implementation could have left behind (inf.go: operand x, x(G), the double, gocoin's own ECPublicTweakAdd residue, both parities, the finite neighbour) and XY.ECPublicTweakAdd itself against A + t*G incl. sums at infinity (tweakadd)); then incremental sweeps (sweep.go: valid tweak / ECDSA / BIP340 inputs advanced by one point addition per case, each with its minimal invalid sibling; counted as evaluations with an empty distinct key); distinct = distinct (op, arguments)",
+		"corpus (defect witnesses, boundary scalars, BIP340 CSV rows, RFC6979/HMAC and signature vectors from the repo's tests) then a structured generator: valid triples from random keys in all key formats, then one mutation per case (bit flips, r/s in {0,n,n+k,p,2^256-1,s+n,n-s}, 33-byte and padded integers, DER container damage, x>=p, y>=p, non-residue x, off-curve, hybrid parity, wrong lengths, infinity results, own-arithmetic forgeries, algebraic triples with small s offered as s+n < 2^256, triples solved for a chosen nonce point with n <= x(R) < p (r = x-n) and their unreduced / negated-key / high-S / bit-flipped siblings, twin nonce points x and x+n sharing one r, public-key recovery on arbitrary (r, s, hash, recid) with the recovered triple offered back to the verifier, signing inputs solved for short R / short S with the top bit set, signing inputs solved for S = 0 (message value -r*d: Signature.Sign must return 0) with the neighbour m+1, recovery inputs solved for a result at infinity (R = k*G, m = s*k: nil expected) with the other parity and the neighbouring message, BIP340 signing with secret keys of 0 / 1 / 4 / 31 / 33+ bytes (nil expected), SchnorrVerify's steps on r = x(R)+p for a tiny-x nonce point with the key solved for the injected challenge, RFC6979 nonces for message hashes 0 / n+k / ff..ff, the repository's RFC6979 vectors with their expected outputs (noncevec), SchnorrVerify's steps with an injected challenge e >= n on valid / shifted-by-n / odd-R / bit-flipped signatures (schnorre) and XYZ.ECmult with negative scalars (ecmneg), results at infinity for all three verifiers with the claim ranging over every coordinate an implementation could have left behind (inf.go: operand x, x(G), the double, gocoin's own ECPublicTweakAdd residue, both parities, the finite neighbour) and XY.ECPublicTweakAdd itself against A + t*G incl. sums at infinity (tweakadd), every value+p aliasing class drawing its coordinate from the whole range [0, 2^32+977) (wide.go), histories of library calls after the application configured the nonce scheme once - VerifyKeyPair on matching / mismatching / out-of-range / damaged pairs, verifiers, signers, key functions - with btc.EcdsaSign compared with the configured signer and the package-level configuration compared with its initial value after every step (hist)); then incremental sweeps (sweep.go: valid tweak / ECDSA / BIP340 inputs advanced by one point addition per case, each with its minimal invalid sibling; counted as evaluations with an empty distinct key); distinct = distinct (op, arguments)",
 		"real gocoin functions vs an independent math/big reference (property predicate) on every case; a subset also through the Lean model and Lean spec (oracle_c03): real=model is the tie, model=spec is what the iff-theorems state")
 }
 
